@@ -73,7 +73,9 @@ def _classes(kind):
         methods = [m + "_" + o for m in ("load", "save") for o in ("model", "parameters", "scheme", "result")]
     ns = {m: mk(m) for m in methods}
     A = type("PlugA", (base,), dict(ns, __module__="vf.props.c19"))
-    B = type("PlugB", (base,), dict(ns, __module__="vf.props.c19"))
+    # PlugB is a plugin object that is falsy (a plugin keeping a cache and defining __len__, empty after registration): the
+    # registry has to tell "registered" from "missing" by membership, not by the truth value of what is stored
+    B = type("PlugB", (base,), dict(ns, __module__="vf.props.c19", __len__=lambda self: 0))
     C = type("PlugC", (A,), {"__module__": "vf.props.c19"})
     D = type("PlugA", (base,), dict(ns, __module__="vf.other"))
     return [A, B, C, D], log
